@@ -1,24 +1,29 @@
 (* C04 — The token stream is a faithful, layout-independent reading of the text.
    Only statements, closed by [exact], with Print Assumptions.  The model is Model/Lexer.v (byte-level mirror of
-   pkg/sql/tokenizer/tokenizer.go) over the lexical tables regenerated from the current source (Gen/LexTables.v).
+   pkg/sql/tokenizer/tokenizer.go) over the lexical tables regenerated from the current source (Gen/LexTables.v);
+   the reference lexical grammar is Spec/LexSpec.v.
 
-   FULL-STRENGTH STATEMENT (not proved in this revision; what is missing is said below):
-     lex_faithful : forall ls seps, wf ls seps ->
-        tokenize (interleave ls seps) = Val (map tok_of ls ++ [EOF], comments_of seps)
-     with corollaries layout_independent (two separator assignments give the same kind/value sequence),
-     keyword_case_independent, quoted_distinct.
-   Proved here: totality; shape of every successful run (exactly one end marker, ordered non-empty spans, token
-   count bound); the size limit; comments captured in order with the exact bytes they span; the munch lemma of the
-   operator/punctuation class (C04_lex_faithful_partial: every operator of the grammar except bare '@' and the '$'
-   forms is read with its kind and text whenever what follows cannot extend it); quoted identifiers are kept
-   distinct (kind and quote mark of "..." and `...` do not depend on the spelling between the quotes; words carry
-   quote mark 0; the quoted kinds are not keyword kinds).
-   Missing for lex_faithful: munch lemmas for words/keywords (with the compound look-ahead), numbers, strings,
-   quoted identifiers, dollar quoting, the separator lemma for skip_trivia against the separator language, and the
-   induction over the lexeme list; layout_independent and keyword_case_independent are corollaries of it and are
-   therefore decided in this revision only by the implementation-side oracles and the correspondence. *)
+   FULL-STRENGTH STATEMENT, proved here for every lexeme class of the reference grammar:
+     lex_faithful : forall ls seps, wf ls seps -> (the text fits the two limits) ->
+        tokenize (interleave ls seps) = Val (toks, cms) with
+          reading toks = map tok_norm ls ++ [EOF]          (kinds, decoded values, quote marks; exactly one end marker)
+          map com_key cms = comments_of seps              (each comment once, exact text and style)
+     and in raw form (C04_lex_faithful_raw) the exact token list with byte spans and the exact comment records;
+     corollaries C04_layout_independent, C04_keyword_case_independent, C04_token_limit_iff; C04_quoted_distinct.
+   [reading] is the kind/value/quote sequence after a two-word keyword token (GROUP BY read across plain white space
+   as ONE raw token by the tokenizer) is split into its words and keyword spellings are upper-cased: that is the
+   stream the parser consumes (design/C04.md).
+   Lexeme classes inside wf (Spec/LexSpec.v [lexeme]; this is the whole list of token readers of the tokenizer):
+   operators and punctuation (all 43 entries of all_ops), bare @, bare $, numbers (integer, decimal, exponent forms),
+   words (identifiers incl. Unicode, keywords, the two-word keyword look-ahead), $n and @name parameters,
+   single-quoted strings (doubled quotes, every backslash escape, typographic quotes), double-quoted identifiers (also
+   typographic), back-ticked identifiers, dollar-quoted strings (with and without tag), triple-quoted strings.
+   Separators: white-space bytes, line comments (ended by LF or end of text), block comments.
+   Outside the grammar (so outside the theorem, covered by totality/shape and the correspondence only): texts with
+   invalid UTF-8 inside words or quoted literals, a bare $ directly followed by a word, malformed input. *)
 From Coq Require Import List NArith Bool.
-From GV Require Import Gen.LexTables Model.Lexer Inst.Inst_C04 Spec.LexSpec Proofs.LexerP Proofs.LexSpecP.
+From GV Require Import Gen.LexTables Model.Lexer Inst.Inst_C04 Spec.LexSpec Proofs.LexerP Proofs.LexSpecP Proofs.LexSepP
+  Proofs.LexMunchP Proofs.LexWordP Proofs.LexFaithP Proofs.LexNormP.
 Import ListNotations.
 Local Open Scope N_scope.
 
@@ -51,8 +56,8 @@ Theorem C04_size_limit_exact :
   tokenize_with m1 max_tok bs = tokenize_with m2 max_tok bs.
 Proof. exact size_limit_exact. Qed.
 
-(* token limit (partial: the bound; "more tokens than the limit => E1007" is explored on the implementation by C02) *)
-Theorem C04_token_limit_partial :
+(* token limit, the bound (the equivalence is C04_token_limit_iff below) *)
+Theorem C04_token_limit_bound :
   forall max_in max_tok bs toks cms, tokenize_with max_in max_tok bs = Val (toks, cms) ->
   N.of_nat (length toks) <= max_tok + 1.
 Proof. exact token_limit_bound. Qed.
@@ -63,13 +68,75 @@ Theorem C04_comments_captured :
   forall bs toks cms, tokenize bs = Val (toks, cms) -> coms_from bs 0 cms.
 Proof. exact comments_captured. Qed.
 
-(* faithful reading, staged part: operator and punctuation lexemes *)
-Theorem C04_lex_faithful_partial :
-  (forall b ty, In (b, ty) punct1 ->
-     forall bs r i, next_token bs (b :: r, i) = Val ((ty, [b], 0), (r, i + 1))) /\
-  (forall v ty forb, In (v, ty, forb) optable ->
-     forall bs r i, follow_free forb r -> next_token bs (v ++ r, i) = Val ((ty, v, 0), (r, i + N.of_nat (length v)))).
-Proof. exact (conj munch_punct1 munch_op). Qed.
+(* the separator lemma: at the head of a well-formed item sequence skipWhitespaceAndComments consumes exactly the
+   leading separator pieces, records exactly their comments and stops on the first byte of the next lexeme *)
+Theorem C04_sep_skip :
+  forall bs its fuel i acc, items_ok its = true -> (length (render_items its) < fuel)%nat ->
+  skip_trivia bs fuel (render_items its, i) acc =
+  Val ((render_items (after its), i + N.of_nat (length (render_trivs (lead its)))), acc ++ coms_of bs i (lead its)).
+Proof. exact sep_skip. Qed.
+
+(* munch lemmas: a well-formed lexeme of any class but words, followed by a text that cannot extend it, is read as
+   exactly its token, the cursor left exactly behind it; a word is read as the grammar's reading step next_lex
+   (keyword lookup; one raw token for a two-word keyword completed across plain white space) *)
+Theorem C04_munch :
+  (forall l, is_word l = false -> forall bs r i, lex_ok l = true -> class_follow l r = true ->
+     next_token bs (render l ++ r, i) = Val (tok_of l, (r, i + N.of_nat (length (render l))))) /\
+  (forall bs rs rest i, lex_ok (LWord rs) = true -> class_follow (LWord rs) (render_items rest) = true ->
+     items_ok rest = true ->
+     next_token bs (utf8 rs ++ render_items rest, i) =
+     let '(tk, n, rest') := next_lex (LWord rs) rest in Val (tk, (render_items rest', i + N.of_nat n))).
+Proof. exact (conj munch_all munch_word). Qed.
+
+(* faithful reading, raw form: the exact token list (kinds, decoded values, quote marks, byte spans), one end marker
+   at the end of the text, the exact comment records *)
+Theorem C04_lex_faithful_raw :
+  forall max_in max_tok ls seps, wf ls seps ->
+  N.of_nat (length (interleave ls seps)) <= max_in -> N.of_nat (length (raw_tokens ls seps)) <= max_tok ->
+  tokenize_with max_in max_tok (interleave ls seps) =
+  Val (raw_tokens ls seps ++ [eof_at (N.of_nat (length (interleave ls seps)))], raw_comments ls seps).
+Proof. exact lex_faithful_raw. Qed.
+
+(* faithful reading: kinds and decoded values of the lexemes in source order, then exactly one end marker; each
+   comment captured once with its exact text *)
+Theorem C04_lex_faithful :
+  forall max_in max_tok ls seps, wf ls seps -> fits max_in max_tok ls seps ->
+  exists toks cms, tokenize_with max_in max_tok (interleave ls seps) = Val (toks, cms) /\
+                   reading toks = map tok_norm ls ++ [eof_rtok] /\ map com_key cms = comments_of seps.
+Proof. exact lex_faithful. Qed.
+
+(* the reading prescribed by the grammar does not depend on the separators at all *)
+Theorem C04_raw_reading :
+  forall ls seps, wf ls seps ->
+  reading (raw_tokens ls seps) = map tok_norm ls /\ map com_key (raw_comments ls seps) = comments_of seps.
+Proof. exact raw_reading. Qed.
+
+(* changing only the white space and comments between the lexemes never changes the sequence of kinds and values *)
+Theorem C04_layout_independent :
+  forall max_in max_tok ls seps1 seps2,
+  wf ls seps1 -> wf ls seps2 -> fits max_in max_tok ls seps1 -> fits max_in max_tok ls seps2 ->
+  exists t1 c1 t2 c2,
+    tokenize_with max_in max_tok (interleave ls seps1) = Val (t1, c1) /\
+    tokenize_with max_in max_tok (interleave ls seps2) = Val (t2, c2) /\ reading t1 = reading t2.
+Proof. exact layout_independent. Qed.
+
+(* ... nor does changing the letter case of keywords *)
+Theorem C04_keyword_case_independent :
+  forall max_in max_tok ls ls' seps seps',
+  Forall2 case_variant ls ls' -> wf ls seps -> wf ls' seps' ->
+  fits max_in max_tok ls seps -> fits max_in max_tok ls' seps' ->
+  exists t1 c1 t2 c2,
+    tokenize_with max_in max_tok (interleave ls seps) = Val (t1, c1) /\
+    tokenize_with max_in max_tok (interleave ls' seps') = Val (t2, c2) /\ reading t1 = reading t2.
+Proof. exact keyword_case_independent. Qed.
+
+(* the token limit as an equivalence: E1007 exactly when the text has more raw tokens than the limit; a text with
+   exactly max_tok tokens is not rejected for that reason *)
+Theorem C04_token_limit_iff :
+  forall max_in max_tok ls seps, wf ls seps -> N.of_nat (length (interleave ls seps)) <= max_in ->
+  ((exists l c, tokenize_with max_in max_tok (interleave ls seps) = Err E_TokenLimitReached l c) <->
+   max_tok < N.of_nat (length (raw_tokens ls seps))).
+Proof. exact token_limit_iff. Qed.
 
 (* quoted identifiers are kept distinct from keywords whatever they spell *)
 Theorem C04_quoted_distinct :
@@ -84,9 +151,16 @@ Print Assumptions C04_exactly_one_eof.
 Print Assumptions C04_tokenize_shape.
 Print Assumptions C04_size_limit.
 Print Assumptions C04_size_limit_exact.
-Print Assumptions C04_token_limit_partial.
+Print Assumptions C04_token_limit_bound.
 Print Assumptions C04_comments_captured.
-Print Assumptions C04_lex_faithful_partial.
+Print Assumptions C04_sep_skip.
+Print Assumptions C04_munch.
+Print Assumptions C04_lex_faithful_raw.
+Print Assumptions C04_lex_faithful.
+Print Assumptions C04_raw_reading.
+Print Assumptions C04_layout_independent.
+Print Assumptions C04_keyword_case_independent.
+Print Assumptions C04_token_limit_iff.
 Print Assumptions C04_quoted_distinct.
 
 (* the hypotheses are satisfiable by concrete non-trivial inputs: SELECT 'a''b' -- c   and   a <@ b /* x */ *)
@@ -100,3 +174,26 @@ Example ex_run_2 :
 Proof. vm_compute. reflexivity. Qed.
 Example ex_follow : follow_free [61; 62; 64] [32; 98].
 Proof. cbn. intuition discriminate. Qed.
+
+(* wf is satisfiable by a non-trivial stream:   select x  -- c <LF> group <LF> by 'a''b' <= $1 and a closing block comment
+   (keyword in lower case, a line comment, a two-word keyword across a line feed, a string with a doubled quote,
+   an extendable operator, a parameter, a trailing block comment) *)
+Definition ex_ls : list lexeme :=
+  [LWord [115;101;108;101;99;116]; LWord [120]; LWord [103;114;111;117;112]; LWord [98;121];
+   LSStr 39 39 [SChar 97; SQuote2 39 39; SChar 98]; LOp ([60;61], TT_LtEq, []); LParamNum [49]].
+Definition ex_seps : list sep :=
+  [[]; [TWs 32]; [TWs 32; TWs 32; TLine [32;99]; TWs 10]; [TWs 10]; [TWs 32]; [TWs 32]; [TWs 32]; [TWs 32; TBlock [32;122;32]]].
+Example ex_wf : wf ex_ls ex_seps.
+Proof. split; vm_compute; reflexivity. Qed.
+Example ex_fits : fits max_input max_tokens ex_ls ex_seps.
+Proof. split; vm_compute; discriminate. Qed.
+(* its raw reading has 6 tokens (group by is one raw token), its normalised reading the 7 lexemes *)
+Example ex_raw_count : length (raw_tokens ex_ls ex_seps) = 6%nat /\ length (map tok_norm ex_ls) = 7%nat.
+Proof. split; vm_compute; reflexivity. Qed.
+Example ex_case : Forall2 case_variant ex_ls
+  ([LWord [83;69;76;69;67;84]; LWord [120]; LWord [71;82;79;85;80]; LWord [66;89]] ++ skipn 4 ex_ls).
+Proof.
+  unfold ex_ls. cbn [app skipn].
+  repeat (first [apply Forall2_nil | apply Forall2_cons]);
+    try (left; reflexivity); right; split; try (vm_compute; reflexivity); vm_compute; discriminate.
+Qed.
